@@ -69,6 +69,7 @@ class _Conv:
     #      | ("P", items, closeGap) | ("A", cst, gc, gap, cst)
     #      | ("K", isWith, c1, g1, head, c2, g2, c3, g3, body)
     #      | ("D", cst, c1, g1, gd, [segment text])                gc : [(gap, comment text)]
+    #      | ("O", cst, c1, g1, gd, [segment text], c2, g2, g3, cst)      select with `or` default
     # item : ("c", gap, text) | ("e", gap, cst) | ("b", gap, name, c1, g1, c2, g2, cst, c3, g3)
     def expr(self, n):
         k = LEAF_KINDS.get(n.type)
@@ -162,16 +163,16 @@ class _Conv:
         raise OutsideFragment(n.type)
 
     def select(self, n):
-        """expression c1 g1 `.` gd a₁ `.` a₂ … `.` aₙ (no `or` default)"""
+        """expression c1 g1 `.` gd a₁ `.` a₂ … `.` aₙ [c2 g2 `or` g3 default]"""
         ch = n.children
         base, ap = n.child_by_field_name("expression"), n.child_by_field_name("attrpath")
-        if n.child_by_field_name("default") is not None or any(c.type == "or" for c in ch):
-            raise OutsideFragment("select with default")
+        dflt = n.child_by_field_name("default")
         if base is None or ap is None or len(ch) < 3 or ch[0].id != base.id or ap.type != "attrpath":
             raise OutsideFragment("select shape")
         e = self.expr(base)
         run, pos, prev, dot = [], base.end_byte, base, None
-        for c in ch[1:]:
+        k = None
+        for k, c in enumerate(ch[1:], start=1):
             if c.type == "comment":
                 if dot is not None:
                     raise OutsideFragment("select shape")   # comment between `.` and the attrpath
@@ -185,7 +186,7 @@ class _Conv:
                 if self.t(c.start_byte, c.end_byte) != ".":
                     raise OutsideFragment("select shape")
                 dot, pos, prev = c, c.end_byte, c
-            elif dot is not None and c.id == ap.id and c.id == ch[-1].id:
+            elif dot is not None and c.id == ap.id:
                 gd = self.gap(pos, c.start_byte)
                 self.rows(prev, c, gd)
                 break
@@ -193,7 +194,35 @@ class _Conv:
                 raise OutsideFragment("select shape")
         else:
             raise OutsideFragment("select shape")
-        return ("D", e, run, g1, gd, self.attrpath(ap))
+        attrs = self.attrpath(ap)
+        rest = ch[k + 1:]
+        if dflt is None:
+            if rest:
+                raise OutsideFragment("select shape")
+            return ("D", e, run, g1, gd, attrs)
+        # c2 g2 `or` g3 default
+        run2, pos, prev, orn = [], ap.end_byte, ap, None
+        for j, c in enumerate(rest):
+            if c.type == "comment":
+                if orn is not None:
+                    raise OutsideFragment("select shape")   # comment between `or` and the default
+                g = self.gap(pos, c.start_byte)
+                self.rows(prev, c, g)
+                run2.append((g, self.t(c.start_byte, c.end_byte)))
+                pos, prev = c.end_byte, c
+            elif c.type == "or" and orn is None:
+                g2 = self.gap(pos, c.start_byte)
+                self.rows(prev, c, g2)
+                if self.t(c.start_byte, c.end_byte) != "or":
+                    raise OutsideFragment("select shape")
+                orn, pos, prev = c, c.end_byte, c
+            elif orn is not None and c.id == dflt.id and j == len(rest) - 1:
+                g3 = self.gap(pos, c.start_byte)
+                self.rows(prev, c, g3)
+                return ("O", e, run, g1, gd, attrs, run2, g2, g3, self.expr(c))
+            else:
+                raise OutsideFragment("select shape")
+        raise OutsideFragment("select shape")
 
     def attrpath(self, ap):
         """segments of the attrpath of a select: `a₁.a₂.….aₙ` with nothing between segments and dots"""
@@ -335,6 +364,9 @@ def flatten(x) -> str:
                 + gc(x[7]) + x[8] + flatten(x[9]))
     if k == "D":
         return flatten(x[1]) + "".join(g + c for g, c in x[2]) + x[3] + "." + x[4] + ".".join(x[5])
+    if k == "O":
+        return (flatten(x[1]) + "".join(g + c for g, c in x[2]) + x[3] + "." + x[4] + ".".join(x[5])
+                + "".join(g + c for g, c in x[6]) + x[7] + "or" + x[8] + flatten(x[9]))
     if k == "c":
         return x[1] + x[2]
     if k == "e":
@@ -365,6 +397,9 @@ def sexp(x):
                 sexp(x[9])]
     if k == "D":
         return ["D", sexp(x[1]), [[hx(g), hx(c)] for g, c in x[2]], hx(x[3]), hx(x[4]), [hx(a) for a in x[5]]]
+    if k == "O":
+        return ["O", sexp(x[1]), [[hx(g), hx(c)] for g, c in x[2]], hx(x[3]), hx(x[4]), [hx(a) for a in x[5]],
+                [[hx(g), hx(c)] for g, c in x[6]], hx(x[7]), hx(x[8]), sexp(x[9])]
     if k == "c":
         return ["c", hx(x[1]), hx(x[2])]
     if k == "e":
@@ -394,6 +429,8 @@ def code_tokens(x) -> list[str]:
         return ["with" if x[1] else "assert"] + code_tokens(x[4]) + [";"] + code_tokens(x[9])
     if k == "D":
         return code_tokens(x[1]) + [t for a in x[5] for t in (".", a)]
+    if k == "O":
+        return code_tokens(x[1]) + [t for a in x[5] for t in (".", a)] + ["or"] + code_tokens(x[9])
     if k == "c":
         return []
     if k == "e":
